@@ -17,16 +17,20 @@ CLAIMED = {
          "Oracle = /verif/spec/policy.spec (written once from the policy as reviewed at the pinned commit, never regenerated). strings.Fields is named, not characterised (the link-rel rule is stated over its result). Failed obligations of the 300-literal table goals come back as solver 'unknown' rather than a model.", "4 C04"),
  "C05": ("Two-state contracts on the real template.go / escape.go entry points in a heap model (field maps for Template, nameSpace, text/template.Template; ghost flag written()): escape, lookupAndEscapeTemplate, Execute, ExecuteTemplate, ExecuteToHTML, ExecuteTemplateToHTML and the top-level escapeTemplate are proved: a recorded failure (escapeErr neither nil nor errEscapeOK) is returned unchanged, never overwritten, and nothing is written (text/template's Execute, the only writer, is not reached); a failing analysis records the error and nils both trees; an incomplete template is an error; the *ToHTML variants return the zero HTML on every error path.",
          "The analysis below escapeTree (escape.go: escapeTree, computeOutCtx, escapeTemplateBody, commit) is an ASSUMED abstract contract here, so 'every listed reason yields an error' is not derived, and KNOWN FINDING C05-failed-callee-left-in-memo (replayed on every run) lives exactly there. Preconditions assume the template is registered under its own name in its set and trees are in sync (orphaned templates excluded). text/template's Execute/Lookup/Name are assumed contracts.", "4 C05"),
- "C07": ("checkCanParse proved to fail exactly when the set has executed; Parse, parseFiles and parseGlob proved to reach it first and to return its error with the heap unchanged (waypoint + frame on the verified prefix); escape and lookupAndEscapeTemplate proved to set escaped under the set mutex before anything else and never to clear it.",
-         "Clone, New and the bodies of Parse/parseFiles after the gate are NOT under contract yet (option stopafter: the rest of those bodies is unverified and listed in the evidence); isolation of clones is therefore not proved. Mutex modelled sequentially as a ghost bit.", "4 C07"),
- "C08": ("Safety obligations generated without annotation for every function under contract in all three packages (about 70 functions): every index and slice expression in range, every dereferenced Template/nameSpace pointer non-nil under the stated representation preconditions, every type assertion, integer overflow, Lock/Unlock discipline, the explicit out-of-sync panic of lookupAndEscapeTemplate unreachable, and a decreasing variant for every loop.",
-         "NOT decided: termination of the mutual recursion of the analysis, panics inside text/template, and the functions not under contract (contextAfterText, escapeText, escapeAction, join, commit, Clone, New). Finding C08-break-continue-panic ({{break}} panicked) was repaired (fix: deb22bd); the nil-tree panic after a failed callee is KNOWN FINDING C05-failed-callee-left-in-memo.", "4 C08"),
+ "C01": ("Layer 1: every scanner and transition function of transition.go (eatWhiteSpace, eatAttrName, eatTagName, tText, tTag, tAttrName, tAfterName, tBeforeValue, tHTMLCmt, tSpecialTagEnd, indexTagEnd, tAttr, tError, nudge) is proved equal to a first-occurrence / recursive spec written from the HTML standard's character classes, for all byte strings (loop invariants, no bound). Layer 1b: contextAfterText (what attr.value records), escapeText (well-formed context in, well-formed context out, no panic) and join (branches agree on state, delimiter, script type, link rel; the ambiguous-value flag of either branch is carried) are under contract; the chains chosen for text and quoted attributes end in the HTML escaper whose image is proved free of < > \" ' (C10 lemmas); actions in tag/attribute-name/unquoted positions are proved rejected (sanitizerForContext).",
+         "NOT proved: escapeAction and the simulation of the HTML5 tokenizer by the context machine (Layer 2) - the claim is 'Layer 1 proved, composition assumed'. Known finding C01-script-double-escaped-state (replayed on every run) shows Layer 2 is false for the script data double escaped state. Finding C02-join-drops-ambiguous-flag was found through the join contract and repaired (fix: da31c0f).", "4 C01"),
+ "C06": ("Per-function lemmas of the 'rewritten exactly once' argument, proved on the real code in the heap model: commit() leaves all three pending-edit maps and the called set fresh and empty, writes only the escaper's bookkeeping fields and the rewritten parts of parse trees, and leaves the inference memo (output) and the derived-template table untouched (frame obligations); escapeTemplate commits only after a successful analysis and then has no pending edit left; escape / lookupAndEscapeTemplate never analyse a template whose escapeErr is already set (okstays / sticky); mangle names every non-text context copy apart from the original (layout contract) and depends only on the listed context fields.",
+         "This is NOT a proof of the whole-history statement: the composition over call histories is argued in DESIGN.md section 4, the analysis below escapeTree is an ASSUMED abstract contract (it only adds to the memo and keys pending edits by non-nil nodes), range-over-map is modelled as 'some entries' (that every pending edit is applied is not derived), ensurePipelineContains is assumed to write only its pipeline node. KNOWN FINDINGS replayed on every run: C06-derived-copy-of-rewritten-tree (a context-specific copy taken from an already rewritten tree is escaped twice), C02-memo-key-ignores-prefix-and-rel, C05-failed-callee-left-in-memo.", "4 C06"),
+ "C07": ("checkCanParse proved to fail exactly when the set has executed; Parse, parseFiles and parseGlob proved to reach it first and to return its error with the heap unchanged (waypoint + frame on the verified prefix); escape and lookupAndEscapeTemplate proved to set escaped under the set mutex before anything else and never to clear it. New, (*Template).new and (*Template).New proved to register a fresh, unexecuted template and, on redefinition, to reset only the replaced entry. Clone proved, with a loop invariant over the new set: it fails when the receiver or any member has executed; on success the clone's nameSpace, set, escaper maps (output, derived, called, pending edits), every member, every member's text template and every copied tree are objects allocated by this call; no object that existed before the call is written (onlyfresh); the original's mutex is released.",
+         "The bodies of Parse/parseFiles after the gate are not under contract (option stopafter; listed in the evidence). text/template's New/Clone/Templates and parse.Tree.Copy are ASSUMED contracts (fresh results; Clone's templates belong to a fresh group). That later executions of the clone touch only clone-owned objects follows from the freshness facts only together with the assumed frame of the analysis. Mutex modelled sequentially as a ghost bit.", "4 C07"),
+ "C08": ("Safety obligations generated without annotation for every function under contract in all three packages (about 90 functions): every index and slice expression in range, every dereferenced Template/nameSpace/parse-node pointer non-nil under the stated representation preconditions (set members non-nil with non-nil text templates), every type assertion, integer overflow, Lock/Unlock discipline, the explicit out-of-sync panic of lookupAndEscapeTemplate unreachable, and a decreasing variant for every loop (range-over-map termination assumed).",
+         "NOT decided: termination of the mutual recursion of the analysis, panics inside text/template, commit's explicit panics (empty set, AddParseTree failure: commit is not under option nopanic) and the functions not under contract (escapeAction, escapeTree and the functions below it). Finding C08-break-continue-panic ({{break}} panicked) was repaired (fix: deb22bd); the nil-tree panic after a failed callee is KNOWN FINDING C05-failed-callee-left-in-memo.", "4 C08"),
  "C10": ("coerceToUTF8InterchangeValid proved equal to the spec transducer (per code point, specbad -> U+FFFD) for all strings, including the equivalence of the merged range table with the arithmetic definition of control and noncharacter code points; HTMLEscaped = htmlesc(coerce(s)); HTMLConcat = concatenation; the image language of escaping proved free of < > \" ' , & only in the five references, interchange-valid (regular-language lemmas).",
          "html.EscapeString/UnescapeString are assumed to be the five-entry homomorphism and its left inverse (the round-trip clause rests on that); rangetable.Merge assumed to be the union; range-over-string = UTF-8 decoding assumed.", "4 C10"),
  "C11": ("URLSanitized/isSafeURL proved equal to membership in URLAccept = lower^-1(L(safeURLPattern) minus ^javascript:), for all strings; URLAccept proved disjoint from the WHATWG javascript-scheme language, also after character-reference decoding (over-approximated by 'anything after the first &'); converse clause proved as a language inclusion.",
          "BOUNDED stand-in (not counted as proved): capture group 1 of safeURLPattern equals \"javascript\" iff the lower-cased input starts with \"javascript:\". strings.ToLower = rune-wise unicode.ToLower assumed.", "4 C11"),
- "C12": ("consumeIn/consumeNotIn proved to return the longest prefix in / not in the mask as views of the input; appendURLToSet proved to append exactly the URL with a leading/trailing comma percent-encoded; metadata check proved to imply the ParseFloat alphabet; the main loop proved safe and terminating and the result non-empty; the mask tables are extracted from init() and checked to be written nowhere else.",
-         "NOT proved yet: that the buffer stays in the canonical candidate-list language and idempotence (planned as invariant + lemmas); 'number' is defined as strconv.ParseFloat success (assumed contract). The WHATWG srcset parser exists only as the replay oracle.", "4 C12"),
+ "C12": ("URLSetSanitized proved, for all strings, to return a member of the canonical language SrcsetCanon = cand (\" , \" cand)* with cand = url | url \" \" descriptor, url accepted by URLSanitized, free of whitespace and not touching a comma, descriptor a run of float characters: loop invariant on the buffer plus regular-language lemmas (quotient by \",\" for the comma encoding, closure of the language under appending a candidate); the placeholder about:invalid#zGoSafez is itself canonical and is returned exactly when the buffer is empty. consumeIn/consumeNotIn proved to return the longest prefix in / not in the mask as views of the input; appendURLToSet proved to append exactly commaenc(url) and commaenc proved to map accepted whitespace-free URLs into the output URL language; the mask tables are extracted from init() and proved equal to the Infra definitions.",
+         "BOUNDED stand-ins (not counted as proved): (1) adequacy of SrcsetCanon against the WHATWG srcset parser - every member over a 9-letter alphabet up to length 7 splits into exactly its candidates; (2) idempotence and 'URLs and descriptors are copied in order from the input' on the real code for all strings over a 9-letter alphabet up to length 6. 'number' is defined as strconv.ParseFloat success (assumed alphabet contract).", "4 C12"),
  "C13": ("urlProcessor proved equal to the RFC 3986 spec transducer (encupto) for all strings and its image proved inside (unreserved|%hh)* resp. the normalised alphabet via closure lemmas; Append, QueryEscapeURL, the Format closure (missing label -> error, '..' argument -> error, piece = escaped argument, error is sticky) and the fragment/separator logic of WithParams proved; prefix pattern proved inside the four documented ASCII forms; escaped pieces proved free of URL delimiters.",
          "KNOWN FINDING C13-adjacent-markers-dotdot (two adjacent pieces build '..'; the single-piece lemma is proved with that region excluded). Finding C13-prefix-unicode-fold was found by the prefix lemma and repaired (fix: f5d6636). regexp.ReplaceAllStringFunc is an assumed higher-order contract; order independence of WithParams (sort) is not derived.", "4 C13"),
  "C14": ("validateURLPrefix, validateTrustedResourceURLPrefix, decodeURLPrefix, validateDoesNotEndsWithCharRefPrefix, validateTrustedResourceURLSubstitution proved equal to spec predicates over the code's patterns; the chain choice per prefix class (TRU -> validate+queryEscape, prefix with ? or # -> queryEscape, else normalize, ambiguous -> error) proved inside sanitizersForAttributeValue; normalised / escaped images proved attribute-safe.",
